@@ -53,6 +53,7 @@ type invT struct {
 	nb      int
 	na      int
 	late    int
+	mid     int // datapoints sent while this invocation's flush is being delivered upstream (slow outcome)
 }
 
 type caseT struct {
@@ -75,7 +76,11 @@ func renderCase(c *caseT) string {
 		items = append(items, fmt.Sprintf("early %d", c.early))
 	}
 	for _, iv := range c.invs {
-		items = append(items, fmt.Sprintf("inv %d %s %d %d %d %d %d %d", iv.ndp, iv.outcome, iv.lat, iv.pre, iv.post, iv.nb, iv.na, iv.late))
+		it := fmt.Sprintf("inv %d %s %d %d %d %d %d %d", iv.ndp, iv.outcome, iv.lat, iv.pre, iv.post, iv.nb, iv.na, iv.late)
+		if iv.mid > 0 {
+			it += fmt.Sprintf(" %d", iv.mid)
+		}
+		items = append(items, it)
 	}
 	return strings.Join(items, " ; ")
 }
@@ -103,11 +108,15 @@ func parseCase(line string) (*caseT, error) {
 			c.early += v
 			continue
 		}
-		if len(it) != 9 || it[0] != "inv" {
+		if (len(it) != 9 && len(it) != 10) || it[0] != "inv" {
 			return nil, fmt.Errorf("bad item")
 		}
-		n := make([]int, 9)
-		for _, i := range []int{1, 3, 4, 5, 6, 7, 8} {
+		n := make([]int, 10)
+		idx := []int{1, 3, 4, 5, 6, 7, 8}
+		if len(it) == 10 {
+			idx = append(idx, 9)
+		}
+		for _, i := range idx {
 			v, err := strconv.Atoi(it[i])
 			if err != nil || v < 0 {
 				return nil, fmt.Errorf("bad number")
@@ -119,7 +128,7 @@ func parseCase(line string) (*caseT, error) {
 		default:
 			return nil, fmt.Errorf("bad outcome")
 		}
-		c.invs = append(c.invs, invT{ndp: n[1], outcome: it[2], lat: n[3], pre: n[4], post: n[5], nb: n[6], na: n[7], late: n[8]})
+		c.invs = append(c.invs, invT{ndp: n[1], outcome: it[2], lat: n[3], pre: n[4], post: n[5], nb: n[6], na: n[7], late: n[8], mid: n[9]})
 	}
 	return c, nil
 }
@@ -635,9 +644,31 @@ func runHistory(c *caseT) (string, error) {
 		for j := 0; j < iv.post; j++ {
 			recs = append(recs, record(hx.Pick(rng, otherTypes), k))
 		}
+		h.mu.Lock()
+		dAt := len(h.log)
+		h.mu.Unlock()
 		h.add("D" + strconv.Itoa(k))
 		if !postTelemetry(recs) {
 			return finish("!telemetry-endpoint-unreachable")
+		}
+		if iv.mid > 0 && iv.ndp > 0 {
+			// datapoints accepted while this invocation's flush is being delivered: wait for the upstream attempt
+			// to begin (it then sleeps for the scripted latency), send them meanwhile
+			began := false
+			for t0 := time.Now(); !began && time.Since(t0) < 3*time.Second; time.Sleep(500 * time.Microsecond) {
+				h.mu.Lock()
+				for _, e := range h.log[dAt:] {
+					if strings.HasPrefix(e.tok, "U+") {
+						began = true
+					}
+				}
+				h.mu.Unlock()
+			}
+			for j := 0; began && j < iv.mid; j++ {
+				if !sendDP() {
+					return finish("!ingestion-refused")
+				}
+			}
 		}
 		for j := 0; j < iv.na; j++ {
 			if !noise(k) {
@@ -794,6 +825,10 @@ func gen(args []string) {
 			if r.Chance(3, 10) {
 				iv.late = r.Range(1, 2)
 			}
+			if iv.outcome == "slow" && iv.ndp > 0 && r.Chance(1, 2) {
+				iv.mid = r.Range(1, 2)
+				iv.lat = r.Range(120, 250)
+			}
 			c.invs = append(c.invs, iv)
 		}
 		line := renderCase(c)
@@ -808,6 +843,9 @@ func gen(args []string) {
 			}
 			if iv.late > 0 {
 				st.Hit("late-datapoints")
+			}
+			if iv.mid > 0 {
+				st.Hit("datapoints-during-delivery")
 			}
 		}
 		st.Case(line, c.initOK && nontrivial)
